@@ -561,7 +561,7 @@ func main() {
 				if tier == "thorough" && len(s.Runs) <= 2 {
 					levels = append(levels, mc.Bounds{Preempt: 3, Delay: 3})
 				}
-				out = append(out, mc.Scenario{Name: s.Name, Levels: levels})
+				out = append(out, mc.Scenario{Name: s.Name, Levels: levels, Races: true})
 			}
 			return out
 		},
